@@ -86,7 +86,7 @@ def _match(pat, node, b):
 
 def _same(a, b):
     if isinstance(a, ast.AST) and isinstance(b, ast.AST):
-        return ast.dump(a) == ast.dump(b)
+        return src_of(a) == src_of(b)
     return a == b
 
 
